@@ -381,6 +381,14 @@ pub fn fixed_hash(parts: &[&[u8]]) -> u64 {
     h
 }
 
+/// seed for `detrand::DetRand` derived from the case itself, so that the randomness hickory draws
+/// (message ids, ports, 0x20 case, initial SRTTs) is a function of the case: shrinking and replay
+/// then see the same values as the run that failed
+pub fn det_seed<T: Serialize>(case: &T) -> u64 {
+    let js = serde_json::to_string(case).unwrap_or_default();
+    fixed_hash(&[b"detrand", js.as_bytes()])
+}
+
 pub fn hash_of<T: Hash>(t: &T) -> u64 {
     #[allow(deprecated)]
     let mut h = std::hash::SipHasher::new_with_keys(0x7665_7269, 0x6663_6865);
